@@ -32,6 +32,11 @@ fn card_data(pass: usize, cells: usize, d: usize, seed: u64) -> Vec<u8> {
     v
 }
 
+/// Digits of a printed cell; an empty list if the printer has no such cell (the lookup comparison reports that).
+fn printed_or_empty(card: &MatrixCard, idx: usize) -> Vec<u8> {
+    printed_digits(card, idx).unwrap_or_default()
+}
+
 fn printed_digits(card: &MatrixCard, idx: usize) -> Option<Vec<u8>> {
     card.to_printer().nth(idx).map(|s| s.bytes().map(|b| b.wrapping_sub(b'0')).collect())
 }
@@ -97,7 +102,10 @@ pub fn run(tier: Tier, seed: u64) -> i32 {
                                 viol(&report, "lookup-panic", json!({"w": w, "h": h, "digits": d, "pass": pass, "x": x, "y": y}), format!("get_number_at_coordinates({x},{y}) panicked: {m}"));
                                 return;
                             }
-                            (_, None) => mc::util::machinery_error("printer has fewer cells than the card"),
+                            (_, None) => {
+                                viol(&report, "printer-has-fewer-cells-than-the-card", json!({"w": w, "h": h, "digits": d, "pass": pass, "x": x, "y": y}), format!("the printer yields no cell #{idx} although the card is {w}x{h}"));
+                                return;
+                            }
                         }
                     }
                 }
@@ -126,7 +134,13 @@ pub fn run(tier: Tier, seed: u64) -> i32 {
             }
             // (2) rounds and (3) proofs
             let data = card_data(3, cells, d as usize, seed);
-            let card = MatrixCard::from_data(d, h, w, data).unwrap();
+            let card = match MatrixCard::from_data(d, h, w, data) {
+                Some(c) => c,
+                None => {
+                    viol(&report, "from_data-refused", json!({"w": w, "h": h, "digits": d}), "from_data refused data of the documented size".into());
+                    continue;
+                }
+            };
             if card.digit_count() != d || card.width() != w || card.height() != h {
                 viol(&report, "accessors", json!({"w": w, "h": h, "digits": d}), format!("accessors return {}x{}x{}", card.width(), card.height(), card.digit_count()));
             }
@@ -199,7 +213,7 @@ pub fn run(tier: Tier, seed: u64) -> i32 {
                     // (3) the user reads the PRINTED card at the challenged cells
                     let mut digits: Vec<u8> = vec![];
                     for &(x, y) in &coords {
-                        digits.extend(printed_digits(&card, y as usize * w as usize + x as usize).unwrap());
+                        digits.extend(printed_or_empty(&card, y as usize * w as usize + x as usize));
                     }
                     let mut client = MatrixCardVerifier::new(count, h, sd, w, key);
                     for &dg in &digits {
@@ -244,7 +258,7 @@ pub fn run(tier: Tier, seed: u64) -> i32 {
                         order.swap(0, 1);
                         for r in order {
                             let (x, y) = coords[r];
-                            sw.extend(printed_digits(&card, y as usize * w as usize + x as usize).unwrap());
+                            sw.extend(printed_or_empty(&card, y as usize * w as usize + x as usize));
                         }
                         if sw != digits {
                             wrongs.push(sw);
